@@ -770,6 +770,48 @@ impl Run {
                     desc["key"] = json!(tok(k));
                     m.insert(k.clone(), Arc::new(vec![]));
                 }
+                "flipstr" => {
+                    // flip the lowest bit of an alphanumeric byte inside a JSON string literal: the item
+                    // usually stays valid JSON with altered content
+                    let k = &keys[n % keys.len()];
+                    let mut b = items[k].as_ref().clone();
+                    // candidates: alphanumeric bytes of string literals, preferring literals that are not
+                    // digests / revision identifiers (flipping those only makes the item incomplete)
+                    let mut cand = vec![];
+                    let mut hexcand = vec![];
+                    let mut cur: Vec<usize> = vec![];
+                    let mut in_str = false;
+                    let mut esc = false;
+                    for (i, c) in b.iter().enumerate() {
+                        if in_str {
+                            if esc {
+                                esc = false;
+                            } else if *c == b'\\' {
+                                esc = true;
+                            } else if *c == b'"' {
+                                in_str = false;
+                                let digestlike = cur.len() >= 32 && cur.iter().filter(|j| b[**j].is_ascii_hexdigit()).count() * 10 >= cur.len() * 9;
+                                if digestlike { hexcand.extend(cur.drain(..)); } else { cand.extend(cur.drain(..)); }
+                            } else if c.is_ascii_alphanumeric() {
+                                cur.push(i);
+                            }
+                        } else if *c == b'"' {
+                            in_str = true;
+                            cur.clear();
+                        }
+                    }
+                    if cand.is_empty() {
+                        cand = hexcand;
+                    }
+                    if cand.is_empty() {
+                        return;
+                    }
+                    let i = cand[pos % cand.len()];
+                    b[i] ^= 1;
+                    desc["key"] = json!(tok(k));
+                    desc["bit"] = json!(i * 8);
+                    m.insert(k.clone(), Arc::new(b));
+                }
                 "trunc" => {
                     let k = &keys[n % keys.len()];
                     let b = items[k].clone();
@@ -1165,9 +1207,16 @@ pub fn random_spec(run: u64, seed: u64, profile: &str) -> Value {
         // replica 2 gets a byte copy of everything without loading it (so later damage hits items it never read)
         ops.push(json!({"op": "deliver", "r": 2, "s": 0, "seed": p.next(), "refresh_each": false}));
         let victim = if p.chance(2, 3) { 2 } else { p.below(2) };
+        if p.chance(1, 2) {
+            // the victim has loaded everything before the damage (cold object cache after a reopen)
+            ops.push(json!({"op": "refresh", "r": victim}));
+            if p.chance(1, 2) {
+                ops.push(json!({"op": "reopen", "r": victim}));
+            }
+        }
         let nd = 1 + p.below(2);
         for _ in 0..nd {
-            let kind = *p.pick(&["flip", "flip", "flip", "trunc", "empty", "delete", "inject"]);
+            let kind = *p.pick(&["flip", "flip", "flipstr", "flipstr", "flipstr", "trunc", "empty", "delete", "inject"]);
             let mut d = json!({"op": "damage", "r": victim, "kind": kind, "n": p.below(64), "pos": p.next() % 1_000_003});
             if kind == "inject" {
                 let names = ["zz.pack", "12-ab.delta", "foo.delta", "1-0000000000000000000000000000000000000000000000000000000000000000.delta",
